@@ -53,7 +53,7 @@ type World struct {
 	upBusy           map[*ssa.Parameter]bool
 	recEsc           map[*ssa.Alloc]bool
 	lenKnown         map[ssa.Value]int64 // lengths fixed by the arm under consideration (the encoding of a key of a known curve)
-	phiSel           map[*ssa.Phi]int // join under consideration: the incoming edge each of its phis takes its value from
+	phiSel           map[*ssa.Phi]int    // join under consideration: the incoming edge each of its phis takes its value from
 	cbOK             map[*ssa.Function]bool
 	rootsInl         map[*ssa.Function]int
 }
